@@ -680,7 +680,7 @@ def _worker_task(args):
 
 
 def run_scenario(scenario, seed=0, workers=None, setup=None, must_fail=False, chunk_paths=150,
-                 chunk_s=20.0, budget_s=None, stop_on_first=False, max_violations=60):
+                 chunk_s=20.0, budget_s=None, stop_on_first=False, max_violations=60, early_stop=24):
     """Explore `scenario` exhaustively; returns (Stats, [violation json], complete: bool)."""
     import multiprocessing as mp
     workers = workers or int(os.environ.get("SYMX_WORKERS", "0")) or min(16, os.cpu_count() or 1)
@@ -696,7 +696,7 @@ def run_scenario(scenario, seed=0, workers=None, setup=None, must_fail=False, ch
             st, vs, todo = _worker_task((todo, chunk_paths, chunk_s))
             total.merge(st)
             viols.extend(vs)
-            if stop_on_first and viols:
+            if (stop_on_first and viols) or len(viols) >= early_stop:
                 break
         set_cur(None)
         return total, viols[:max_violations], not todo
@@ -712,7 +712,7 @@ def run_scenario(scenario, seed=0, workers=None, setup=None, must_fail=False, ch
             if t_end is not None and time.time() > t_end:
                 complete = False
                 break
-            if stop_on_first and viols:
+            if (stop_on_first and viols) or len(viols) >= early_stop:
                 complete = False
                 break
             while queue and len(inflight) < workers * 2:
